@@ -152,12 +152,55 @@ def inline_len_locals(tree):
     return tree
 
 
+def unproduct(tree):
+    """`for a, b in itertools.product(X, Y): body` is `for a in X: for b in Y: body` when X and Y are plain names that the body neither
+    re-binds nor resizes nor stores into by index (product takes a snapshot of both lists first; without such writes the nested loops
+    visit the same pairs in the same order); no break/continue in the body (they would mean something else in the nested form)."""
+    for fn in [x for x in ast.walk(tree) if isinstance(x, ast.FunctionDef)]:
+        def visit(block):
+            for i, st in enumerate(block):
+                for sub in ('body', 'orelse', 'finalbody'):
+                    if isinstance(getattr(st, sub, None), list) and not isinstance(st, ast.FunctionDef):
+                        visit(getattr(st, sub))
+                if not (isinstance(st, ast.For) and not st.orelse and isinstance(st.target, ast.Tuple) and len(st.target.elts) == 2
+                        and all(isinstance(e, ast.Name) for e in st.target.elts) and isinstance(st.iter, ast.Call) and not st.iter.keywords
+                        and len(st.iter.args) == 2 and all(isinstance(a, ast.Name) for a in st.iter.args)):
+                    continue
+                f = st.iter.func
+                if not ((isinstance(f, ast.Attribute) and f.attr == 'product' and isinstance(f.value, ast.Name) and f.value.id == 'itertools')
+                        or (isinstance(f, ast.Name) and f.id == 'product')):
+                    continue
+                xs = {a.id for a in st.iter.args}
+                bad = False
+                for n in ast.walk(st):
+                    if isinstance(n, (ast.Break, ast.Continue)):
+                        bad = True
+                    if isinstance(n, ast.Name) and n.id in xs and isinstance(n.ctx, (ast.Store, ast.Del)):
+                        bad = True
+                    if isinstance(n, ast.Subscript) and isinstance(n.ctx, (ast.Store, ast.Del)) and isinstance(n.value, ast.Name) and n.value.id in xs:
+                        bad = True
+                    if isinstance(n, ast.Call) and isinstance(n.func, ast.Attribute) and isinstance(n.func.value, ast.Name) \
+                            and n.func.value.id in xs and n.func.attr in RESIZERS:
+                        bad = True
+                if bad:
+                    continue
+                inner = ast.For(target=st.target.elts[1], iter=st.iter.args[1], body=st.body, orelse=[], type_comment=None)
+                ast.copy_location(inner, st)
+                outer = ast.For(target=st.target.elts[0], iter=st.iter.args[0], body=[inner], orelse=[], type_comment=None)
+                ast.copy_location(outer, st)
+                ast.fix_missing_locations(outer)
+                block[i] = outer
+        visit(fn.body)
+    return tree
+
+
 def normalise(tree):
     """The behaviour-preserving rewrites shared by the translators that read optimizer code (T2, its state-replay instrumentation, the
     onlooker translator, t_treepop): each maps a spelling onto the one the translators know; none changes what the code does."""
     sink_branch_locals(tree)
     swaps_via_temp(tree)
     inline_len_locals(tree)
+    unproduct(tree)
     return tree
 
 
